@@ -413,3 +413,8 @@ def check(run, prog, tier):
     # ---- C02-p pointers into a memory block across calls that can grow it
     import rules.C02p as c02p
     c02p.check(run, prog, tier)
+
+    # ---- C02-q state of the compiler proper across compilations
+    import rules.C02q as c02q
+    import callgraph as _cg
+    c02q.check(run, prog, tier, _cg.CallGraph(prog))
